@@ -57,7 +57,8 @@ func (s *Server) serveSign(rw http.ResponseWriter, request *http.Request) error 
 	}
 	// configure signer
 	mod := signers.ByName(sigType)
-	if mod == nil {
+	if mod == nil || mod.Sign == nil {
+		// modules that only verify (pkcs7, mach-o-fat, ipa) cannot sign: refuse like the sign commands do
 		hlog.FromRequest(request).Error().Str("sigtype", sigType).Msg("signature type not found")
 		return httperror.ErrUnknownSignatureType
 	}
